@@ -311,6 +311,22 @@ func Gen(r *hx.Run) {
 		w.xws(msgs)
 		r.Count("op.xws")
 	}
+	// bursts: several large messages sent back to back before the other side reads any of them
+	n = r.Pick(2, 10)
+	for i := 0; i < n; i++ {
+		var msgs []wsMsg
+		k := 2 + rr.Intn(6)
+		size := []int{70000, 200000, 300000, 400000}[rr.Intn(4)]
+		if i == 0 {
+			// the recorded finding's input, on every run: more than the send buffer holds
+			k, size = 6, 400000
+		}
+		for j := 0; j < k; j++ {
+			msgs = append(msgs, wsMsg{dir: 'b', seed: rr.Intn(256), n: size + rr.Intn(1000)})
+		}
+		r.Count("xws.burst")
+		w.xws(msgs)
+	}
 }
 
 func contains(l []string, s string) (int, bool) {
